@@ -1,6 +1,7 @@
 package lexer
 
 import (
+	"errors"
 	"fmt"
 	"log"
 	"strings"
@@ -65,6 +66,9 @@ func comment(c rune) str {
 	if c == '\n' {
 		return str{next: eol, doEmit: false, doAdv: true, typ: token.Invalid}
 	}
+	if c == EOF {
+		return str{next: eof, doEmit: false, doAdv: true, typ: token.Invalid}
+	}
 	return str{next: comment}
 }
 
@@ -109,12 +113,18 @@ func stringLit(c rune) str {
 	case c == '\\':
 		return str{next: escapeStringLit}
 
+	case c == EOF:
+		return str{err: errors.New("Lexer: unterminated string literal")}
+
 	default:
 		return str{next: stringLit}
 	}
 }
 
-func escapeStringLit(_ rune) str {
+func escapeStringLit(c rune) str {
+	if c == EOF {
+		return str{err: errors.New("Lexer: unterminated string literal")}
+	}
 	return str{next: stringLit}
 }
 
